@@ -214,6 +214,56 @@ def predEval (p : Pred) (C : Ctx) (v : NV) : M Bool :=
   | .signbit, v => .ok (nvSign v)
   | .isnormal, _ => let _ := C; .error .notImplemented
 
+/-- `_cvt_context_arg` for an `int`-annotated constructor parameter: a dyadic number that is an integer -/
+def ctxIntArg (v : Val) : M Int :=
+  match v with
+  | .num (.fv (.fin x)) => (match x.toInt? with | some i => .ok i | none => .error .valueError)
+  | .num (.fv _) => .error .valueError
+  | .num (.q n d) => if d = 1 then .ok n else if isPow2 d then .error .valueError else .error .typeError
+  | _ => .error .typeError
+
+def rmOfName : String → Option RM
+  | "rne" => some .rne | "rna" => some .rna | "rtp" => some .rtp | "rtn" => some .rtn
+  | "rtz" => some .rtz | "raz" => some .raz | "rto" => some .rto | "rte" => some .rte | _ => none
+
+def ovOfName : String → Option OV
+  | "overflow" => some .overflow | "saturate" => some .saturate | "wrap" => some .wrap | "assert" => some .assert | _ => none
+
+/-- Rounding-context constructors called with COMPUTED numeric arguments inside a program
+(`with fp.MPFloatContext(p + 1, fp.RM.RNE):`). The callee name encodes the class and the static
+(non-numeric) options: `@mp/<rm>`, `@mps/<rm>`, `@ieee/<rm>/<ov>`, `@mpfix/<rm>`, `@fixed/<rm>/<ov>/<0|1 signed>`;
+the values are the numeric arguments in the constructor's positional order. Any other unknown name is unbound. -/
+def ctxCtor (f : String) (vs : List Val) : M Ctx :=
+  match f.splitOn "/", vs with
+  | ["@mp", rm], [p] => do
+    let some rm := rmOfName rm | .error .typeError
+    let p ← ctxIntArg p
+    if p < 1 then .error .typeError else .ok (.mp p.toNat rm (some 0) {})
+  | ["@mps", rm], [p, emin] => do
+    let some rm := rmOfName rm | .error .typeError
+    let p ← ctxIntArg p; let emin ← ctxIntArg emin
+    if p < 1 then .error .typeError else .ok (.mps p.toNat emin rm (some 0) {})
+  | ["@ieee", rm, ov], [es, nbits] => do
+    let some rm := rmOfName rm | .error .typeError
+    let some ov := ovOfName ov | .error .typeError
+    let es ← ctxIntArg es; let nbits ← ctxIntArg nbits
+    if ov == .wrap then .error .valueError
+    else if es < 0 || nbits < 0 || !efloatValid es.toNat nbits.toNat true .ieee then .error .valueError
+    else .ok (.efloat { es := es.toNat, nbits := nbits.toNat, inf := true, kind := .ieee, eoff := 0, rm := rm, ov := ov,
+                        k := some 0, nanValue := none, infValue := none })
+  | ["@mpfix", rm], [nmin] => do
+    let some rm := rmOfName rm | .error .typeError
+    let nmin ← ctxIntArg nmin
+    .ok (.mpfix nmin rm (some 0) true { enableNan := false, enableInf := false })
+  | ["@fixed", rm, ov, sg], [scale, nbits] => do
+    let some rm := rmOfName rm | .error .typeError
+    let some ov := ovOfName ov | .error .typeError
+    let scale ← ctxIntArg scale; let nbits ← ctxIntArg nbits
+    let signed := sg == "1"
+    if (signed && nbits < 2) || (!signed && nbits < 1) then .error .valueError
+    else .ok (Ctx.fixed signed scale nbits.toNat rm ov (some 0) none none)
+  | _, _ => .error .unbound
+
 structure Funs where
   defs : List FuncDef
 
@@ -376,7 +426,7 @@ def evalE (Φ : Funs) : Nat → Env → Heap → Ctx → Expr → M (Val × Heap
     | .call f args => do
       let (vs, μ') ← evalEs Φ fuel σ μ C args
       match Φ.find? f with
-      | none => .error .unbound
+      | none => (ctxCtor f vs).map (fun c => (Val.ctx c, μ'))     -- a rounding-context constructor, or unbound
       | some fd =>
         if fd.params.length != vs.length then .error .typeError
         else
